@@ -62,7 +62,22 @@ def build(desc):
         "market_params": mp,
         "script_params": {"n_orders": (3, 12), "types": ("LIMIT",) * 5 + ("LOC", "MOC"), "p_finest": 0.15, "p_cancel": 0.25, "p_replace": 0.2, "p_fok": 0.1, "modes": ("cross", "cross", "at", "rest", "join", "far"), "sizes": (2.0, 2.37, 5.0, 10.0, 25.5)},
     }
-    return _sim.build(d)
+    if desc["idx"] % 7 == 5:
+        d["overrides"]["n_strategies"] = (2, 2)
+    case, snaps = _sim.build(d)
+    if desc["idx"] % 7 == 5:
+        # two instances of one strategy class added without distinct names (flumine only warns): each has its own position
+        case["strategies"][1]["name"] = case["strategies"][0]["name"]
+    if desc["idx"] % 5 == 3:
+        # a limit makes the controls refuse some orders; the strategy offers a refused order again later (after cancels / fills it may pass)
+        for st in case["strategies"]:
+            st["limits"] = {"selection": rng.choice((4.0, 8.0, 15.0))}
+            extra = []
+            for a in st["actions"]:
+                if a["op"] == "place" and rng.random() < 0.6:
+                    extra.append(dict(a, at=a["at"] + rng.randint(1, 4), reuse=True))
+            st["actions"] = sorted(st["actions"] + extra, key=lambda a: a["at"])
+    return case, snaps
 
 
 def run(desc):
